@@ -381,6 +381,27 @@ def equality_laws(ctx, tz):
                         if oa != ob:
                             ctx.violation('equal-zones-different-offsets', {'a': 'tzlocal created under TZ=' + na, 'b': 'tzlocal created under TZ=' + nb, 'TZ': cur},
                                           'the zones compare equal but report %r vs %r' % (oa[:4], ob[:4]))
+        # copies and pickles of a tzlocal made after the process setting changed are the zone that was copied, not a fresh
+        # reading of the environment
+        for na, a in locals_[:len(settings)]:
+            for cur in ('JST-9', 'EST5EDT,M3.2.0,M11.1.0'):
+                if cur == na:
+                    continue
+                TM.set_process_tz(cur)
+                ref = behaviour(a)
+                for fname, f in [('copy', copy.copy), ('deepcopy', copy.deepcopy)] + [('pickle-%d' % p, (lambda o, p=p: pickle.loads(pickle.dumps(o, p))))
+                                                                                      for p in (0, 2, pickle.HIGHEST_PROTOCOL)]:
+                    ctx.ev()
+                    ctx.count('law_tzlocal_copied_under_other_setting')
+                    case = {'zone': 'tzlocal created under TZ=' + na, 'form': fname, 'TZ_at_copy': cur}
+                    try:
+                        c2 = f(a)
+                    except Exception as e:
+                        ctx.violation('copy-or-pickle-raised', case, '%s: %s' % (type(e).__name__, e))
+                        continue
+                    if not (c2 == a and a == c2) or behaviour(c2) != ref:
+                        ctx.violation('copy-differs', case, 'the copy is %s the original and reports %r, the original %r' % (
+                            'equal to' if c2 == a else 'not equal to', behaviour(c2)[:2], ref[:2]))
     finally:
         TM.set_process_tz(old)
     # gettz('') means "the local zone": whenever that is not a tzlocal object (TZ holds a name or a rule string) the
